@@ -5,9 +5,9 @@ C13 — background maintenance stays alive: rotation continues and close termina
 Every statement is a schema in the error policy `p : ErrorPolicy` of the worker loop
 (`processMsgWith p`, `runWorkerWith p`):
 
-* `ErrorPolicy.panic`          = `processMsg` / `runWorker`           = the loop before /repo 1a06a96
+* `ErrorPolicy.panic`          = `processMsg` / `runWorker`           = the loop before /repo 33c2a77
                                                                         (`process_msg(msg).await?`, `panic!`);
-* `ErrorPolicy.logAndContinue` = `processMsgFixed` / `runWorkerFixed` = the loop since /repo 1a06a96
+* `ErrorPolicy.logAndContinue` = `processMsgFixed` / `runWorkerFixed` = the loop since /repo 33c2a77
                                                                         (the code as it is now).
 
 `CURRENT` (end of the file) names the policy the shipped code implements; the main theorems
@@ -389,7 +389,7 @@ example :
 
 /-! ## the policy of the shipped code
 
-Since /repo 1a06a96 the shipped loop is `logAndContinue`.  These are the C13 theorems about the code as it
+Since /repo 33c2a77 the shipped loop is `logAndContinue`.  These are the C13 theorems about the code as it
 is; should the loop change again, this is the only place that names the policy. -/
 
 abbrev CURRENT : ErrorPolicy := .logAndContinue
